@@ -40,7 +40,7 @@ class BooleanProxy(AnyAtomicType):
         if isinstance(value, bool):
             return value
         elif isinstance(value, (int, float, Decimal)):
-            if math.isnan(value):
+            if not isinstance(value, int) and math.isnan(value):
                 return False
             return bool(value)
         elif isinstance(value, UntypedAtomic):
